@@ -74,6 +74,12 @@ var shapes = map[string][]node{
 	"backup-present":    {{t: canon.NH, ni: "DEFAULT", key: 0}, {t: canon.NHG, ni: "DEFAULT", key: 1, nhs: []uint64{1}}, {t: canon.NHG, ni: "DEFAULT", key: 0, nhs: []uint64{1}, backup: 2}, {t: canon.V6, ni: "DEFAULT", key: 0, nhg: 1}},
 	"dep-never-arrives": {{t: canon.NH, ni: "DEFAULT", key: 0}, {t: canon.NHG, ni: "DEFAULT", key: 0, nhs: []uint64{1, 3}}, {t: canon.V4, ni: "DEFAULT", key: 0, nhg: 1}, {t: canon.V4, ni: "DEFAULT", key: 1, nhg: 3}},
 	"two-tops-same-key": {{t: canon.NH, ni: "DEFAULT", key: 0}, {t: canon.NHG, ni: "DEFAULT", key: 0, nhs: []uint64{1}}, {t: canon.NHG, ni: "DEFAULT", key: 1, nhs: []uint64{1}}, {t: canon.V4, ni: "DEFAULT", key: 0, nhg: 1}, {t: canon.V4, ni: "DEFAULT", key: 0, nhg: 2}},
+	// a group that grows by a next-hop which may or may not have arrived yet (two writes of the group key)
+	"group-grows":       {{t: canon.NH, ni: "DEFAULT", key: 0}, {t: canon.NH, ni: "DEFAULT", key: 1}, {t: canon.NHG, ni: "DEFAULT", key: 0, nhs: []uint64{1}}, {t: canon.NHG, ni: "DEFAULT", key: 0, nhs: []uint64{1, 2}}, {t: canon.V4, ni: "DEFAULT", key: 0, nhg: 1}},
+	// one prefix written twice: pointing at its own instance's group and at the same id in another instance
+	"retarget-cross-ni": {{t: canon.NH, ni: "DEFAULT", key: 0}, {t: canon.NHG, ni: "DEFAULT", key: 0, nhs: []uint64{1}}, {t: canon.NH, ni: "VRF1", key: 0}, {t: canon.NHG, ni: "VRF1", key: 0, nhs: []uint64{1}}, {t: canon.V4, ni: "VRF1", key: 0, nhg: 1}, {t: canon.V4, ni: "VRF1", key: 0, nhg: 1, nhgNI: "DEFAULT"}},
+	// one label written twice with different groups, a second entry keeps the first group referenced
+	"retarget-mpls":     {{t: canon.NH, ni: "DEFAULT", key: 0}, {t: canon.NHG, ni: "DEFAULT", key: 0, nhs: []uint64{1}}, {t: canon.NHG, ni: "DEFAULT", key: 1, nhs: []uint64{1}}, {t: canon.MPLS, ni: "DEFAULT", key: 0, nhg: 1}, {t: canon.MPLS, ni: "DEFAULT", key: 0, nhg: 2}, {t: canon.V6, ni: "DEFAULT", key: 0, nhg: 1}},
 	"three-level-wide":  {{t: canon.NH, ni: "VRF2", key: 0}, {t: canon.NH, ni: "VRF2", key: 1}, {t: canon.NHG, ni: "VRF2", key: 0, nhs: []uint64{1}}, {t: canon.NHG, ni: "VRF2", key: 1, nhs: []uint64{2}}, {t: canon.V4, ni: "VRF2", key: 0, nhg: 1}, {t: canon.MPLS, ni: "DEFAULT", key: 0, nhg: 2, nhgNI: "VRF2"}},
 }
 
@@ -148,9 +154,20 @@ func runJob(run *ev.Run, j job) {
 		}
 	}
 	if j.perturb && len(probs) == 0 {
-		// Delete and re-add dependencies, replace, flush everything, re-send.
+		// Delete and re-add dependencies, replace, flush everything, re-send; half of the
+		// re-sent writes carry a changed reference (a group with another member set - possibly
+		// naming next-hops that are not installed -, an entry pointing at another group or at
+		// the same id in another instance).
 		for k := 0; k < 6+r.Intn(10) && len(probs) == 0; k++ {
-			n := j.nodes[r.Intn(len(j.nodes))]
+			ix := r.Intn(len(j.nodes))
+			n := j.nodes[ix]
+			if r.Intn(2) == 0 {
+				n = mutate(r, g.S, n)
+				run.Count("writes_with_changed_reference", 1)
+				if r.Intn(2) == 0 {
+					j.nodes[ix] = n
+				}
+			}
 			switch r.Intn(7) {
 			case 0, 1:
 				step(n.op(g, spb.AFTOperation_DELETE))
@@ -164,11 +181,49 @@ func runJob(run *ev.Run, j job) {
 			}
 		}
 	}
+	// Finally a DELETE of every group and then of every next-hop of the graph: whatever is
+	// accepted must not leave an installed entry dangling (the model judges each verdict).
+	for _, tbl := range []canon.Table{canon.NHG, canon.NH} {
+		seen := map[string]bool{}
+		for _, n := range j.nodes {
+			k := fmt.Sprintf("%s/%d", n.ni, n.key)
+			if n.t != tbl || seen[k] || len(probs) > 0 {
+				continue
+			}
+			seen[k] = true
+			step(n.op(g, spb.AFTOperation_DELETE))
+			run.Count("sweep_deletes", 1)
+		}
+	}
 	mon.Report(run, j.id, x.Trace, probs)
 	run.Eval(1)
-	if x.M.Contents().Count() > 0 {
+	if x.M.Contents().Count() > 0 || len(x.Trace) > 0 {
 		run.Distinct(strings.Join(x.Trace, "\n"))
 	}
+}
+
+// mutate returns n with another reference: another member set for a group, another group /
+// group instance for a top-level entry.
+func mutate(r *rand.Rand, s gen.Space, n node) node {
+	switch n.t {
+	case canon.NHG:
+		n.nhs = nil
+		for _, nh := range s.NHs {
+			if r.Intn(2) == 0 {
+				n.nhs = append(n.nhs, nh)
+			}
+		}
+		if len(n.nhs) == 0 {
+			n.nhs = []uint64{s.NHs[r.Intn(len(s.NHs))]}
+		}
+	case canon.V4, canon.V6, canon.MPLS:
+		n.nhg = s.NHGs[r.Intn(len(s.NHGs))]
+		n.nhgNI = ""
+		if r.Intn(2) == 0 {
+			n.nhgNI = s.NIs[r.Intn(len(s.NIs))]
+		}
+	}
+	return n
 }
 
 func randomGraph(r *rand.Rand, s gen.Space) []node {
